@@ -25,7 +25,7 @@ AllRules == {"C01.Accept", "C01.Reject", "C01.Data", "C01.BlankReading",
              "C08.Lossless", "C08.Blocks", "C08.NoOp",
              "C09.Accepted", "C09.SameRecords", "C09.FixedPoint", "C09.Layout", "C09.Exact",
              "C10.NoPanic", "C10.ErrShape", "C10.Order", "C10.FirstLine", "C10.Term", "C10.Json", "C10.Multi", "C10.Stdin",
-             "C01.Channels", "C09.Channels", "C08.NoOpFile", "C10.ParEqual", "C20.Stdin"}
+             "C01.Channels", "C09.Channels", "C08.NoOpFile", "C10.ParEqual", "C20.Stdin", "C01.ParEqual", "C09.Cpus", "C20.Cpus"}
 RuleNames == {r \in AllRules : Sel = "ALL" \/ StartsWith(r, Sel)}
 
 EntryTotal(e) == IF e.kind = "dur" THEN e.a ELSE IF e.kind = "range" THEN e.b - e.a ELSE 0
@@ -150,7 +150,12 @@ Holds(r, ev, P) ==
       (* with one and with several CPUs: the bytes on disk and the serialised result are the text      *)
       [] r = "C08.NoOpFile" -> live /\ c.kind = "view" /\ o.ok /\ o.records # <<>> =>
             o.noop_file_ran /\ Len(o.noop_files) = 4 /\ \A i \in 1..Len(o.noop_files) : o.noop_files[i] = c.text
+      (* the views do not depend on the number of CPUs *)
+      [] r = "C09.Cpus" -> live /\ c.kind = "view" => o.print_par_code = o.print_code /\ o.print_par = o.print
+      [] r = "C20.Cpus" -> live /\ c.kind = "view" => o.json_par_sym = o.json_sym
       [] r = "C10.ParEqual" -> live /\ c.kind = "view" => \A i \in 1..Len(o.par) : o.par[i].equal
+      (* on a machine with several CPUs klog parses in parallel: the verdict and the data are the same *)
+      [] r = "C01.ParEqual" -> live /\ c.kind = "parse" => \A i \in 1..Len(o.par) : o.par[i].equal
       [] r = "C09.Accepted" -> live /\ c.kind = "view" /\ o.ok /\ o.records # <<>> /\ ~LoneCR(P.lines) =>
             o.print_code = 0 /\ o.reparsed.ok
       [] r = "C09.SameRecords" -> live /\ c.kind = "view" /\ o.ok /\ o.records # <<>> /\ ~LoneCR(P.lines) /\ o.reparsed.ok =>
